@@ -4,6 +4,8 @@ Import ListNotations.
 From PF Require Import Opcodes RefTable Config Sim Witness.
 From PF.gen Require SrcOpcodes SrcCanEmit.
 Require Import PF.SrcEqOpcodes PF.SrcEqCanEmit.
+From PF Require Import Lex Entropy Gen WitnessF SrcStdlibP.
+From PF.proofs Require Import WitnessFP.
 
 (* (i) No precondition is unsatisfiable.  For the guard function can_emit and the protocol rows
    REGENERATED FROM THE CURRENT SOURCE on this run (gen/SrcCanEmit.v, gen/SrcOpcodes.v), for every
@@ -30,6 +32,26 @@ Proof.
   rewrite <- (rev_involutive (witness_ops o)), Er. reflexivity.
 Qed.
 Print Assumptions C12_guards.
+
+(* (ii) in the bit-exact model of the whole generator (level F: Gen.generate_internal, the model suite
+   S2 compares byte for byte with the implementation), with DEFAULT settings (range 60..300, no
+   mutators), the rows regenerated from the current source and the name table of the current source:
+   for every protocol, both settings of the opt-in flags, both outcomes of the FRAME coin, and every
+   loop-emitted opcode of the row that is not switched off, the fuzzer input `witness_bytes` (the
+   witness path compiled into choice bytes) makes the generator return a pickle in which the opcode
+   occurs, framed exactly when the coin says so and the protocol is >= 4.  The quantifier of the
+   property ("for some seed") is met here through the other entry point (generate_from_arbitrary);
+   the check replays exactly these inputs on the implementation (suite c12) and adds a seed census,
+   because the ChaCha8 stream of a seed is outside the model. *)
+Theorem C12_model_witness : forall v ext buf framed o,
+  In o (SrcOpcodes.Src.row v) -> driver_emitted o = false -> flag_ok (default_cfg v ext buf) o = true ->
+  exists w r,
+    witness_bytes (src_env fmt0) v ext buf framed o = Some w
+    /\ generate_internal (src_env fmt0) id_order (default_cfg v ext buf) (SrcBytes w) = Ok r
+    /\ occurs o (g_out r) = true
+    /\ g_framed r = (framed && v_ge4 v).
+Proof. intros v ext buf framed o Hin. rewrite src_rows_eq in Hin. exact (witnessF_sound v ext buf framed o Hin). Qed.
+Print Assumptions C12_model_witness.
 
 (* the vocabulary is the standard one: the row of v holds exactly the opcodes CPython lists for
    protocols <= v (both directions, against the table generated from pickletools) *)
